@@ -212,7 +212,7 @@ def pkesk_session_key(p, pub, secret):
     raise DecryptError('cannot decrypt algorithm %d' % p.alg)
 
 
-def build_pkesk(pub, cid, key, rnd, keyid=None):
+def build_pkesk(pub, cid, key, rnd, keyid=None, ecdh_pad_to=None):
     """rnd: octets for the PKCS#1 padding / the ephemeral ECDH key."""
     m = _sk_block(cid, key)
     out = bytearray([3]) + (keyid if keyid is not None else pub.keyid) + bytes([pub.alg])
@@ -238,7 +238,7 @@ def build_pkesk(pub, cid, key, rnd, keyid=None):
             zz = eph.exchange(ec.ECDH(), ec.EllipticCurvePublicKey.from_encoded_point(crv, pub.point))
         kdf_hash, kek_alg = pub.kdf
         kek = algo.ecdh_kdf(kdf_hash, zz, algo.key_size(kek_alg), pub.oid, kdf_hash, kek_alg, pub.fingerprint)
-        c = algo.aes_wrap(kek, algo.pkcs5_pad(m))
+        c = algo.aes_wrap(kek, algo.pkcs5_pad(m, ecdh_pad_to))
         out += mpi(vb) + bytes([len(c)]) + c
         return bytes(out)
     raise WireError('cannot encrypt to algorithm %d' % pub.alg)
